@@ -12,6 +12,20 @@
 size_t g_k;      /* ghost byte index (never assigned) */
 size_t g_i;      /* ghost element index (never assigned) */
 
+/* =========================================================== memcpy with a non-constant length
+ * g_k is the absolute byte index inside the DESTINATION OBJECT (buffers are whole objects, offset 0). */
+void *verif_memcpy(void *dst, const void *src, size_t n)
+__CPROVER_requires(n <= VEC_MAX)
+__CPROVER_requires(n == 0 || (__CPROVER_w_ok(dst, n) && __CPROVER_r_ok(src, n)))
+__CPROVER_assigns(n > 0: __CPROVER_object_upto(dst, n))
+__CPROVER_ensures(__CPROVER_return_value == dst)
+__CPROVER_ensures((n > 0 && g_k >= (size_t)__CPROVER_POINTER_OFFSET(dst) && g_k - (size_t)__CPROVER_POINTER_OFFSET(dst) < n) ==>
+                  ((const uint8_t *)dst)[g_k - (size_t)__CPROVER_POINTER_OFFSET(dst)] == ((const uint8_t *)src)[g_k - (size_t)__CPROVER_POINTER_OFFSET(dst)])
+{
+    if (n) memcpy(dst, src, n);
+    return dst;
+}
+
 /* =========================================================== std::vector<uint8_t> */
 
 /* vector() */
